@@ -102,6 +102,7 @@ type ep struct {
 	fatal  string
 	wrote  bool
 	maxBuf int // largest rxBuf length observed on the real endpoint
+	due    []byte // plaintext whose ciphertext has been handed to this side's socket in full
 }
 
 func classify(err error) string {
@@ -420,6 +421,28 @@ func (c *scase) deliverData(e *ep, wire []byte, sizes []int, eofAfter bool) {
 	}
 }
 
+// checkDue is the liveness half of stream integrity: obfs3 is a plain stream cipher after the
+// magic, so every byte the peer wrote and the network delivered must be readable *now*, without
+// any further traffic. The endpoint being blocked in Read while such bytes are outstanding is a stall.
+func (c *scase) checkDue(to, from *ep, coalesced bool) {
+	if !to.real || to.rd == nil || (from.spec.Craft && malformedSender(from.spec)) {
+		return
+	}
+	r.Validated(1)
+	if to.rd.Err != nil || to.rd.Panic != nil || len(to.rd.Got) >= len(to.due) || !bytes.HasPrefix(to.due, to.rd.Got) {
+		return // errors and corrupted bytes are judged at the end of the case
+	}
+	sig := "stall-delivered-bytes-not-readable"
+	how := "its segmentation"
+	if coalesced {
+		sig = "stall-data-coalesced-with-handshake"
+		how = "one flight with its handshake (key ‖ pad1 ‖ pad2 ‖ magic ‖ data)"
+	}
+	c.violate(sig, "impl-oracle",
+		fmt.Sprintf("%s %s wrote %d bytes which reached real %s's socket in %s; real %s is blocked in Read with only %d bytes delivered (%d bytes still queued on the socket, %d in rxBuf) and the peer sends nothing more",
+			kindOf(from), from.role, len(to.due), to.role, how, to.role, len(to.rd.Got), to.sc.Pending(), obfs3.VerifRxBufLen(to.conn)))
+}
+
 func (e *ep) close() {
 	if e.real && e.sc != nil && !e.sc.Closed() {
 		e.sc.Close()
@@ -546,6 +569,7 @@ func runCase(c *scase) {
 		return
 	}
 	payload := append([]byte{}, first.hs...)
+	var coalesced []byte
 	if c.Coalesce && len(wFirst) > 0 {
 		for _, w := range c.write(first, wFirst[0]) {
 			payload = append(payload, w...)
@@ -553,6 +577,7 @@ func runCase(c *scase) {
 		if first.fatal != "" {
 			return
 		}
+		coalesced = wFirst[0]
 		wFirst = wFirst[1:]
 	}
 	c.deliverHS(second, payload, toSecond, false)
@@ -570,8 +595,13 @@ func runCase(c *scase) {
 			if from.fatal != "" {
 				return
 			}
+			to.due = append(to.due, w...)
+		}
+		if len(ws) == 0 {
+			return
 		}
 		c.deliverData(to, wire, sizes, eofAfter)
+		c.checkDue(to, from, false)
 	}
 	if malformed {
 		// the crafted peer is `first`; the real side writes before it reads (its Read will fail and close)
@@ -579,8 +609,11 @@ func runCase(c *scase) {
 		c.deliverData(second, nil, nil, false)
 		send(first, second, wFirst, dataToSecond, true)
 	} else {
-		// whatever followed the key in that delivery is read now (padding, maybe magic and data)
+		// whatever followed the key in that delivery is read now (padding, maybe magic and data):
+		// nothing more is on its way, so all of it must come out
+		second.due = append(second.due, coalesced...)
 		c.deliverData(second, nil, nil, false)
+		c.checkDue(second, first, true)
 		send(first, second, wFirst, dataToSecond, false)
 		send(second, first, wSecond, dataToFirst, false)
 	}
@@ -879,6 +912,54 @@ func genBad(g *vlib.Rng, kind string, peerRole string, p1, p2 int, chunker strin
 	return c
 }
 
+// genFlight: the peer (`firstRole`, real or reference) finishes its handshake first and writes at
+// once, so that its whole flight key ‖ pad1 ‖ pad2 ‖ magic ‖ data reaches the other (real) side in
+// ONE segment (cut < 0) or in two segments cut at `cut` — and then sends nothing more until it is
+// answered. Every byte of `data` must become readable without further traffic.
+func genFlight(g *vlib.Rng, firstRole string, firstReal bool, p1, p2, dlen, cut int) *scase {
+	c := &scase{Kind: "session", TapeSeed: g.U64(), Chunker: "flight-one-segment", CutAt: -1, First: firstRole, Coalesce: true,
+		ReadMax: vlib.Pick(g, []int{7, 1500, 32768})}
+	c.I = genSide(g, 1, firstRole != "i" || firstReal, true)
+	c.R = genSide(g, 2, firstRole != "r" || firstReal, true)
+	x := &c.I
+	if firstRole == "r" {
+		x = &c.R
+	}
+	x.Pad1, x.Pad2, x.Reject = p1, p2, 0
+	if !x.Real {
+		x.Pad1B, x.Pad2B = randHex(g, p1), randHex(g, p2)
+	}
+	wf := []string{randHex(g, dlen)}
+	ws := genWrites(g, true, false)
+	var to []int
+	if cut > 0 {
+		to = []int{cut}
+		c.Chunker = "flight-two-segments"
+	}
+	if firstRole == "i" {
+		c.WritesI, c.WritesR, c.ToR = wf, ws, to
+	} else {
+		c.WritesR, c.WritesI, c.ToI = wf, ws, to
+	}
+	return c
+}
+
+// flightCuts: every phase boundary of a flight, ±1.
+func flightCuts(p1, p2, dlen int) []int {
+	total := keySize + p1 + p2 + magicLen + dlen
+	seen := map[int]bool{}
+	var cuts []int
+	for _, b := range []int{keySize, keySize + p1, keySize + p1 + p2, keySize + p1 + p2 + magicLen/2, keySize + p1 + p2 + magicLen, total} {
+		for d := -1; d <= 1; d++ {
+			if x := b + d; x > 0 && x < total && !seen[x] {
+				seen[x] = true
+				cuts = append(cuts, x)
+			}
+		}
+	}
+	return cuts
+}
+
 func genCut(g *vlib.Rng, realRole string, cut int) *scase {
 	c := &scase{Kind: "cut", TapeSeed: g.U64(), Chunker: "whole", CutAt: cut, ReadMax: 1500, First: "i"}
 	c.I = genSide(g, 1, realRole == "i", true)
@@ -1109,6 +1190,33 @@ func main() {
 	for _, role := range []string{"i", "r"} {
 		for _, cut := range []int{0, 1, 100, 191, 192} {
 			runCase(genCut(g.Fork(), role, cut))
+		}
+	}
+	// --- the peer's whole flight (key ‖ pad1 ‖ pad2 ‖ magic ‖ data) in one segment, and in two
+	// segments cut at every phase boundary ±1, after which the peer waits for an answer
+	type fl struct{ p1, p2, d int }
+	flights := []fl{{0, 0, 1}, {1, 0, 100}, {33, 5, 1400}, {700, 900, 64}, {0, 31, 2000}, {2000, 2000, 33}, {halfPad, halfPad, 3000}, {0, halfPad, 7}}
+	for round := 0; round < r.Scale(1, 4); round++ {
+		for fi, f := range flights {
+			for _, role := range []string{"i", "r"} {
+				for _, firstReal := range []bool{false, true} {
+					if round > 0 {
+						f = fl{g.Intn(halfPad + 1), g.Intn(halfPad + 1), 1 + g.Intn(3000)}
+						if g.Intn(2) == 0 { // small enough for one handshake-sized read
+							f = fl{g.Intn(1200), g.Intn(1200), 1 + g.Intn(1500)}
+						}
+					}
+					runCase(genFlight(g.Fork(), role, firstReal, f.p1, f.p2, f.d, -1))
+					cuts := flightCuts(f.p1, f.p2, f.d)
+					if !r.Thorough() && fi%3 != (round+b2i(firstReal))%3 {
+						// quick: all boundary cuts for a third of the flights, two random boundaries otherwise
+						cuts = []int{vlib.Pick(g, cuts), vlib.Pick(g, cuts)}
+					}
+					for _, cut := range cuts {
+						runCase(genFlight(g.Fork(), role, firstReal, f.p1, f.p2, f.d, cut))
+					}
+				}
+			}
 		}
 	}
 	r.Notes["lean_driver_calls"] = d.Calls
